@@ -1,4 +1,5 @@
 import HbsModel.Basic
+import HbsModel.Generated.Deps
 /-
   `serde_json::Number` (without `arbitrary_precision`): PosInt(u64) | NegInt(i64<0) | Float(finite f64).
   A float is its 64 bits; its exact value is a dyadic rational computed from the bits, so nothing
@@ -219,11 +220,177 @@ def Num.toText : Num → Str
   | .neg n => '-' :: natToStr n
   | .flt b => f64ToText b
 
-/-! ### JSON number text → Num (serde_json parser) -/
+/-! ### binary64 multiplication and division (round to nearest, ties to even) on magnitudes -/
 
-/-- Parse a JSON number at the head of `s`; returns the number and the rest.
-    `none` = not a JSON number / out of range. -/
-def Num.parsePrefix (s : Str) : Option (Num × Str) :=
+/-- magnitude bits of the double nearest to `A / B` (`B > 0`); `none` = overflow (infinity) -/
+def ratToF64 (A B : Nat) : Option Nat :=
+  if A == 0 then some 0 else
+  let est : Int := (bitLen A : Int) - (bitLen B : Int)
+  let pow2Le (k : Int) : Bool :=
+    if k ≥ 0 then 2 ^ k.toNat * B ≤ A else B ≤ A * 2 ^ (-k).toNat
+  let e2 : Int := if pow2Le est then est else est - 1
+  let normal := e2 ≥ -1022
+  let s : Int := if normal then e2 - 52 else -1074
+  let num := if s ≥ 0 then A else A * 2 ^ (-s).toNat
+  let den := if s ≥ 0 then B * 2 ^ s.toNat else B
+  let q0 := num / den
+  let r := num % den
+  let q := if 2 * r > den || (2 * r == den && q0 % 2 == 1) then q0 + 1 else q0
+  let bits :=
+    if normal then ((e2 + 1023).toNat) * 2 ^ 52 + (q - 2 ^ 52) else q
+  if bits / 2 ^ 52 ≥ 2047 then none else some bits
+
+/-- `a * b` on finite non-negative doubles given by their bits -/
+def f64MulMag (a b : Nat) : Option Nat :=
+  let m := F64.mant a * F64.mant b
+  let e : Int := F64.exp2 a + F64.exp2 b
+  if e ≥ 0 then ratToF64 (m * 2 ^ e.toNat) 1 else ratToF64 m (2 ^ (-e).toNat)
+
+/-- `a / b` on finite non-negative doubles, `b ≠ 0` -/
+def f64DivMag (a b : Nat) : Option Nat :=
+  let e : Int := F64.exp2 a - F64.exp2 b
+  if e ≥ 0 then ratToF64 (F64.mant a * 2 ^ e.toNat) (F64.mant b)
+  else ratToF64 (F64.mant a) (F64.mant b * 2 ^ (-e).toNat)
+
+/-! ### JSON number text → Num: serde_json's parser WITHOUT the `float_roundtrip` feature (the build
+    the crate uses).  It keeps at most a u64 of significant digits, drops the rest, and scales the
+    converted significand by a table power of ten with ONE floating-point multiplication or division
+    (after repeated division by 1e308 for very small exponents) – the result can be an ulp away from
+    the correctly rounded value, and the model follows the code. -/
+
+def u64Max : Nat := 2 ^ 64 - 1
+def i32Max : Nat := 2 ^ 31 - 1
+
+/-- `POW10[k]` : the literal `1e<k>` (rustc rounds literals correctly) -/
+def pow10F64 (k : Nat) : Nat := (decToF64 1 k).getD 0
+
+/-- the loop of `f64_from_parts` on the magnitude `f`; `none` = NumberOutOfRange -/
+def f64Scale (f : Nat) (exponent : Int) : Nat → Option Nat
+  | 0 => none
+  | fuel + 1 =>
+    if exponent.natAbs < 309 then
+      if exponent ≥ 0 then f64MulMag f (pow10F64 exponent.natAbs)
+      else f64DivMag f (pow10F64 exponent.natAbs)
+    else if f == 0 then some 0
+    else if exponent ≥ 0 then none
+    else match f64DivMag f (pow10F64 308) with
+      | some f' => f64Scale f' (exponent + 308) fuel
+      | none => none
+
+/-- `f64_from_parts` : `significand as f64`, then the scaling loop (at most ⌈2^31 / 308⌉ rounds, but the
+    value is zero long before: 8 rounds reach below the smallest subnormal) -/
+def f64FromParts (significand : Nat) (exponent : Int) : Option Nat :=
+  f64Scale (natToF64 significand) exponent (exponent.natAbs / 308 + 2)
+
+def isDigit (c : Char) : Bool := (digitVal? c).isSome
+def dropDigits (s : Str) : Str := s.dropWhile isDigit
+
+/-- saturating i32 addition / subtraction of `parse_exponent` -/
+def satI32 (x : Int) : Int :=
+  if x > 2147483647 then 2147483647 else if x < -2147483648 then -2147483648 else x
+
+/-- the digit loop of `parse_exponent` (after the first digit).  `inl` = overflow of the i32 -/
+def serdeExpDigits : Nat → Str → Option Nat × Str
+  | exp, [] => (some exp, [])
+  | exp, c :: t =>
+    match digitVal? c with
+    | some d => if exp * 10 + d > i32Max then (none, t) else serdeExpDigits (exp * 10 + d) t
+    | none => (some exp, c :: t)
+
+/-- `parse_exponent`, `s` starting after the `e`/`E` -/
+def serdeExponent (significand : Nat) (startingExp : Int) (s : Str) : Option (Nat × Str) :=
+  let (positiveExp, s1) := match s with
+    | '+' :: t => (true, t)
+    | '-' :: t => (false, t)
+    | _ => (true, s)
+  match s1 with
+  | [] => none
+  | c :: t =>
+    match digitVal? c with
+    | none => none
+    | some d0 =>
+      match serdeExpDigits d0 t with
+      | (none, rest) =>
+        -- parse_exponent_overflow
+        if significand != 0 && positiveExp then none else some (0, dropDigits rest)
+      | (some exp, rest) =>
+        let finalExp := if positiveExp then satI32 (startingExp + exp) else satI32 (startingExp - exp)
+        (f64FromParts significand finalExp).map (fun b => (b, rest))
+
+/-- the digit loop of `parse_decimal` (after the `.`): (significand, digits consumed, overflowed?, rest) -/
+def serdeFracDigits : Nat → Nat → Str → Nat × Nat × Bool × Str
+  | sig, n, [] => (sig, n, false, [])
+  | sig, n, c :: t =>
+    match digitVal? c with
+    | some d => if sig * 10 + d > u64Max then (sig, n, true, dropDigits (c :: t)) else serdeFracDigits (sig * 10 + d) (n + 1) t
+    | none => (sig, n, false, c :: t)
+
+/-- `parse_decimal`, `s` starting after the `.` -/
+def serdeDecimal (significand : Nat) (expBefore : Int) (s : Str) : Option (Nat × Str) :=
+  let (sig, n, overflowed, rest) := serdeFracDigits significand 0 s
+  if !overflowed && n == 0 then none      -- at least one digit after the decimal point
+  else
+    let exponent : Int := expBefore - n
+    match rest with
+    | c :: t => if c == 'e' || c == 'E' then serdeExponent sig exponent t
+                else (f64FromParts sig exponent).map (fun b => (b, rest))
+    | [] => (f64FromParts sig exponent).map (fun b => (b, rest))
+
+/-- `parse_long_integer` (the u64 overflowed): every further integer digit only bumps the exponent -/
+def serdeLongInteger (significand : Nat) : Nat → Str → Option (Nat × Str)
+  | exp, [] => (f64FromParts significand exp).map (fun b => (b, []))
+  | exp, c :: t =>
+    if isDigit c then serdeLongInteger significand (exp + 1) t
+    else if c == '.' then serdeDecimal significand exp t
+    else if c == 'e' || c == 'E' then serdeExponent significand exp t
+    else (f64FromParts significand exp).map (fun b => (b, c :: t))
+
+/-- the integer digit loop of `parse_integer`: `inl` = finished with a u64, `inr` = float magnitude -/
+def serdeIntDigits : Nat → Str → (Nat × Str) ⊕ Option (Nat × Str)
+  | sig, [] => .inl (sig, [])
+  | sig, c :: t =>
+    match digitVal? c with
+    | some d => if sig * 10 + d > u64Max then .inr (serdeLongInteger sig 0 (c :: t)) else serdeIntDigits (sig * 10 + d) t
+    | none => .inl (sig, c :: t)
+
+/-- serde_json WITHOUT `float_roundtrip` (best-effort precision).  `none` = not a JSON number / out of range. -/
+def Num.parsePrefixFast (s : Str) : Option (Num × Str) :=
+  let (negative, s1) := match s with
+    | '-' :: t => (true, t)
+    | _ => (false, s)
+  let signBit := if negative then 2 ^ 63 else 0
+  let flt (r : Option (Nat × Str)) : Option (Num × Str) := r.map (fun (b, rest) => (.flt (b + signBit), rest))
+  -- `parse_number`
+  let number (sig : Nat) (rest : Str) : Option (Num × Str) :=
+    match rest with
+    | c :: t =>
+      if c == '.' then flt (serdeDecimal sig 0 t)
+      else if c == 'e' || c == 'E' then flt (serdeExponent sig 0 t)
+      else if !negative then some (.pos sig, rest)
+      else if sig ≠ 0 && sig ≤ 2 ^ 63 then some (.neg sig, rest)
+      else some (.flt (natToF64 sig + signBit), rest)
+    | [] =>
+      if !negative then some (.pos sig, rest)
+      else if sig ≠ 0 && sig ≤ 2 ^ 63 then some (.neg sig, rest)
+      else some (.flt (natToF64 sig + signBit), rest)
+  match s1 with
+  | [] => none
+  | c :: t =>
+    match digitVal? c with
+    | none => none
+    | some 0 =>
+      -- there can be only one leading 0
+      match t with
+      | c2 :: _ => if isDigit c2 then none else number 0 t
+      | [] => number 0 t
+    | some d =>
+      match serdeIntDigits d t with
+      | .inl (sig, rest) => number sig rest
+      | .inr r => flt r
+
+/-- serde_json WITH `float_roundtrip`: every decimal text is converted with correct rounding (its
+    `lexical` algorithm), whatever the number of digits.  `none` = not a JSON number / out of range. -/
+def Num.parsePrefixExact (s : Str) : Option (Num × Str) :=
   let (negative, s1) := match s with
     | '-' :: t => (true, t)
     | _ => (false, s)
@@ -264,9 +431,20 @@ def Num.parsePrefix (s : Str) : Option (Num × Str) :=
           | none => 0
           | some (eneg, ed) => if eneg then -(digitsToNat ed : Int) else (digitsToNat ed : Int)
         let E : Int := e10 - (fracDigits.length : Int)
+        -- exact shortcuts for exponents far outside the binary64 range (the real parser never forms 10^E)
+        let nd : Int := ((intDigits ++ fracDigits).dropWhile (· == '0')).length
+        if M == 0 then some (.flt (if negative then 2 ^ 63 else 0), rest)
+        else if E + nd > 400 then none
+        else if E + nd < -400 then some (.flt (if negative then 2 ^ 63 else 0), rest)
+        else
         match decToF64 M E with
         | none => none
         | some bits => some (.flt (bits + (if negative then 2 ^ 63 else 0)), rest)
+
+/-- Parse a JSON number at the head of `s`: the parser of the serde_json build the crate selects
+    (`Generated.serdeFloatRoundtrip` is regenerated from Cargo.toml on every run). -/
+def Num.parsePrefix (s : Str) : Option (Num × Str) :=
+  if Generated.serdeFloatRoundtrip then Num.parsePrefixExact s else Num.parsePrefixFast s
 
 /-- `serde_json::Number::from_str` : the whole string must be a JSON number. -/
 def Num.ofText (s : Str) : Option Num :=
